@@ -7,12 +7,12 @@
  "replace_calls": {"hash": "uf_hash"},
  "kind": "bounded",
  "bound": "initial capacity in {4,8}; 4 put/overwrite operations, each followed by a get of an arbitrary key; keys of 0..2 arbitrary bytes; hash() replaced by an arbitrary (uninterpreted) function of the key bytes",
- "cflags": ["-DNOPS=4"],
+ "cflags": ["-DNOPS=4", "-DVERIF_OWN_XMALLOC"],
  "variants": {"cap4": ["-DV_CAP=4"], "cap8": ["-DV_CAP=8"]},
  "canary_variant": "cap4",
  "unwindset": ["memcmp.0:3", "keyindex.0:9", "mapinit.0:9", "mapput.0:9", "mapput.1:5", "model_get.0:5", "model_distinct.0:5", "model_distinct.1:5"],
  "timeout": 300, "mem_gb": 8,
- "tiers": {"thorough": {"cflags": ["-DNOPS=6"], "timeout": 3000,
+ "tiers": {"thorough": {"cflags": ["-DNOPS=6", "-DVERIF_OWN_XMALLOC"], "timeout": 3000,
             "unwindset": ["memcmp.0:3", "keyindex.0:17", "mapinit.0:9", "mapput.0:17", "mapput.1:9", "model_get.0:7", "model_distinct.0:7", "model_distinct.1:7"],
             "bound": "initial capacity in {4,8}; 6 put/overwrite operations (table grows up to 16 slots), each followed by a get of an arbitrary key; keys of 0..2 arbitrary bytes; hash() replaced by an arbitrary (uninterpreted) function of the key bytes"}},
  "expects": ["assertion_verif", "assertion_repo", "pointer_dereference"],
@@ -41,6 +41,39 @@
 #endif
 
 static struct map t_map;
+
+#ifndef VERIF_REPLAY
+/*
+ * Allocation: the requested capacity depends on how many of the symbolic keys are distinct; a heap object of symbolic
+ * size sends CBMC into its unbounded-array theory (19 M variables at 3 operations).  Case-split on the element count
+ * instead: every object then has a constant size and the bounds checks stay exact.
+ */
+void *
+xmalloc(size_t n)
+{
+	void *p = malloc(n);
+	__CPROVER_assume(p != 0);
+	return p;
+}
+
+void *
+xreallocarray(void *buf, size_t n, size_t m)
+{
+	void *p = 0;
+
+	__CPROVER_assert(buf == 0, "map.c only allocates fresh arrays");
+	if (n == 4)
+		p = malloc(4 * m);
+	else if (n == 8)
+		p = malloc(8 * m);
+	else if (n == 16)
+		p = malloc(16 * m);
+	else
+		__CPROVER_assert(0, "capacity within the bound of this unit");
+	__CPROVER_assume(p != 0);
+	return p;
+}
+#endif
 
 /*
  * hash() is replaced by an UNINTERPRETED function of (len, bytes): a fresh arbitrary value per call, except that  Byte-equal keys get the
